@@ -495,7 +495,7 @@ def hooks(rep, u):
                       target_desc="stop hook / shutdown message", require_dominance=True)
 
 
-def state_filters(rep, u):
+def state_filters(rep, u, stop_joinable=False):
     """R-STATE: over the finite set of thread states, every thread that tp_shutdown_wait() will join was sent the
     stop message by tp_shutdown() (or is already stopping).  The two filters are evaluated state by state; the
     helper predicate tpt_is_running() is evaluated from its own return expression."""
@@ -559,6 +559,8 @@ def state_filters(rep, u):
         tbl[nm] = (m, j)
         if m is None or j is None:
             bad.append("%s: filter not evaluable" % nm)
+        elif j and not m and nm == "STOP" and stop_joinable:
+            pass        # the join is conditional on a joiner-owned 'created' mark (R-JOIN): a STOP slot that is joined has a finished thread
         elif j and not m and nm != "STOPING":
             bad.append("a thread in state %s is joined by tp_shutdown_wait() but never told to stop by tp_shutdown()" % nm)
     desc = "every thread state that tp_shutdown_wait() joins is sent the stop message by tp_shutdown() (STOPING excepted)"
@@ -630,7 +632,20 @@ def run(rep, tier):
     (rep.proved if ok else rep.violated)("R-PAIR", fi, "init-failure-undone", "a failed thread-data initialisation releases what it created before returning the error")
     guards(rep, u)
     hooks(rep, u)
-    state_filters(rep, u)
+    from props import c11_audit
+    nj = c11_audit.join_guard_rule(rep, u)
+    rep.floor("pthread_join sites", nj, 1)
+    state_filters(rep, u, stop_joinable=any(o.key == "join-guard" and o.status == "proved" for o in rep.obs))
+    rep.floor("thread creation sites", c11_audit.create_status_rule(rep, u), 1)
+    rep.floor("file-scope pool pointers", c11_audit.dangling_global_rule(rep, u), 1)
+    rep.floor("multiplied allocation sizes", c11_audit.alloc_wrap_rule(rep, u), 1)
+    fl = tp.probe(tp.MSG_C, {"FAIL_DIRECT": "TP_MSG_F_FAIL_DIRECT", "FORCE": "TP_MSG_F_FORCE"}, "probe:msgflags")
+    if any(v is None for v in fl.values()):
+        raise driver.AnalysisBroken("TP_MSG_F_* not foldable")
+    rep.floor("sends whose status is discarded", c11_audit.discarded_send_rule(rep, [u, um], fl), 2)
+    st2 = tp.probe(tp.TP_C, {n_: "TP_THREAD_STATE_" + n_ for n_ in ("STARTING", "RUNNING")}, "probe:tpstate2")
+    rep.floor("slot state transitions", c11_audit.slot_state_rule(rep, u, st2), 2)
+    rep.floor("descriptor sentinel tests", c11_audit.fd_sentinel_rule(rep, u), 4)
     race(rep, u)
     return driver.finish(
         rep, "other",
